@@ -8,9 +8,12 @@ pyPRISM.System through the public API only.
 import copy
 import itertools
 
+import os
+
 import numpy as np
 
 import pyPRISM
+from pyPRISM.potential.Potential import Potential
 
 P = pyPRISM.potential
 C = pyPRISM.closure
@@ -30,6 +33,24 @@ def pairs(types, diagonal=True):
 
 # ----------------------------------------------------------------------------- builders
 
+DATA_DIR = os.path.join(os.path.realpath(os.environ.get('PVMON_REPO', '/repo')), 'data')
+
+
+class SquareWell(Potential):
+    '''the user-defined potential of tutorial NB9 (pyPRISM.Advanced), verbatim: a subclass written by a user, not shipped code'''
+    def __init__(self, depth, width, sigma, high_value=1e6):
+        self.sigma = sigma
+        self.width = sigma + width
+        self.depth = depth
+        self.high_value = high_value
+
+    def calculate(self, r):
+        magnitude = np.zeros_like(r)
+        magnitude[r < self.width] = -self.depth
+        magnitude[r < self.sigma] = self.high_value
+        return magnitude
+
+
 def mk_pot(spec):
     t = spec['t']
     sg = spec.get('sigma')
@@ -46,6 +67,8 @@ def mk_pot(spec):
         return P.LennardJones(spec['eps'], sigma=sg, rcut=spec.get('rcut'), shift=spec.get('shift', False))
     if t == 'WCA':
         return P.WeeksChandlerAndersen(spec['eps'], sigma=sg)
+    if t == 'SW':
+        return SquareWell(depth=spec['depth'], width=spec['width'], sigma=sg, **kw)
     raise KeyError(t)
 
 
@@ -68,6 +91,8 @@ def mk_om(spec):
         return O.InterMolecular()
     if t == 'ARR':
         return O.FromArray(np.array(spec['w'], dtype=float))
+    if t == 'FILE':
+        return O.FromFile(os.path.join(DATA_DIR, spec['file']))
     if t == 'G':
         return O.Gaussian(sigma=spec['s'], length=spec['N'])
     if t == 'FJC':
@@ -77,16 +102,20 @@ def mk_om(spec):
     raise KeyError(t)
 
 
-def build(sp, omit=(), labels=None, originals=None):
+def build(sp, omit=(), labels=None, originals=None, into=None):
     """real System from a spec; `omit` lists items to leave unspecified
     ('domain', 'rho:A', 'd:A', 'pot:A|B', 'clo:A|B', 'om:A|B'); `labels` maps the spec's type names to the labels used in the
     real System (any hashable: other strings, integers); `originals` (a list) collects the potential/closure/omega objects the
-    user handed to the tables (the tables store copies)"""
+    user handed to the tables (the tables store copies); `into` = an existing System of the same types that is re-specified in
+    place (a parameter sweep on one System object, as every tutorial does)"""
     if labels is None:
         labels = sp.get('labels')
     lab = (lambda t: t) if labels is None else (lambda t: labels[t])
     types = [lab(t) for t in sp['types']]
-    if sp.get('kT_via') == 'assign':
+    if into is not None:
+        s = into
+        s.kT = sp['kT']
+    elif sp.get('kT_via') == 'assign':
         # the temperature is assigned after construction, as a temperature sweep on one System does
         s = pyPRISM.System(types)
         s.kT = sp['kT']
